@@ -909,6 +909,7 @@ func newMessage(gen *Plugin, f *File, parent *Message, desc protoreflect.Message
 		"Reset":               true,
 		"String":              true,
 		"ProtoMessage":        true,
+		"ProtoReflect":        true,
 		"Marshal":             true,
 		"Unmarshal":           true,
 		"ExtensionRangeArray": true,
